@@ -1,7 +1,7 @@
 package scen
 
 // C04 — Required, Optional and Default decide what an absent value means.
-// The decision table node kind × Required × Default{none, passing, failing} ×
+// The decision table node kind × Required × Default{none, passing, failing, equal to the Go zero value} ×
 // NotNil × input class × context, enumerated through the core space with the
 // full absent-looking / present-but-falsy input alphabets; oracle: number and
 // place of required/not_nil issues, whether the node's recording tests ran,
@@ -277,7 +277,7 @@ func c04FrontEnds(inner mc.Scenario) mc.Scenario {
 func init() {
 	Register(&Prop{
 		ID:    "C04",
-		Rule:  "decision table through the core space: one execution = one (context skeleton {top, struct field, slice element, behind pointer, struct in slice, pointer to struct, nested struct}, mode, ≤2 focus units over Required × Default{none, passing, failing} × tests × NotNil × the full input alphabet {valid, missing key, nil, \"\", spaces, tab/newline, NBSP, alternative representation, present-but-falsy 0/false/zero time/\"0\", failing, uncoercible} (Parse) / {valid, zero, failing} + {nil slice, empty slice, one element} + {nil pointer} (Validate)); plus typed-map inputs with missing keys; plus every single-unit case again with every node configured only after the schema tree was composed; plus the record Struct{s, p: Ptr(Struct{s4,i4}), q: Ptr(Int), n: Struct{s2}} with ≤2 focus units over Required × tests × {valid, missing, nil, empty, failing, uncoercible} rendered through all eight front ends (untagged and source-tagged destination), each compared with the documented semantics and with the Go-map rendering; non-trivial = deviating case; distinct = distinct (skeleton, mode, required issues, test-run counts)",
+		Rule:  "decision table through the core space: one execution = one (context skeleton {top, struct field, slice element, behind pointer, struct in slice, pointer to struct, nested struct}, mode, ≤2 focus units over Required × Default{none, passing, failing, equal to the Go zero value} × tests × NotNil × the full input alphabet {valid, missing key, nil, \"\", spaces, tab/newline, NBSP, alternative representation, present-but-falsy 0/false/zero time/\"0\", failing, uncoercible} (Parse) / {valid, zero, failing} + {nil slice, empty slice, one element} + {nil pointer} (Validate)); plus typed-map inputs with missing keys; plus every single-unit case again with every node configured only after the schema tree was composed; plus the record Struct{s, p: Ptr(Struct{s4,i4}), q: Ptr(Int), n: Struct{s2}} with ≤2 focus units over Required × tests × {valid, missing, nil, empty, failing, uncoercible} rendered through all eight front ends (untagged and source-tagged destination), each compared with the documented semantics and with the Go-map rendering; non-trivial = deviating case; distinct = distinct (skeleton, mode, required issues, test-run counts)",
 		Floor: 50,
 		Bound: func(tier string) string { return "k=2 focus units over the full (thorough) input alphabets in both tiers, 14 context skeletons, all visit orders" },
 		Assumptions: []string{
@@ -285,7 +285,7 @@ func init() {
 			"Catch is part of the alphabet only in the single-unit items (Default must win over Required with or without Catch); interactions of Catch with other nodes belong to C05; typed nil pointers as input are outside the absent table",
 		},
 		Items: func(tier string) []Item {
-			items := coreItemsFiltered("thorough", c04Scenario, func(a *Alpha) { a.NoCatch = true }, []int{0, 1}, 0, c04Keep)
+			items := coreItemsFiltered("thorough", c04Scenario, func(a *Alpha) { a.NoCatch = true; a.DefZero = true }, []int{0, 1}, 0, c04Keep)
 			// Default beats Required also when the node additionally has Catch: single-unit items with Catch in the alphabet
 			for _, it := range coreItemsFiltered("thorough", c04Scenario, nil, []int{0, 1}, 1, func(ns NamedSkel) bool {
 				return strings.HasPrefix(ns.Name, "P.") || ns.Name == "S2" || ns.Name == "L.Str" || ns.Name == "R.Str"
